@@ -35,6 +35,16 @@ def jobs(tier):
                     js.append(dict(base, name="%s/%s/wire-guard" % (e.name, tagc), analysis="wire", cfg=dict(cfg, guard="sym", track_all=True)))
                     if "truediv" not in e.tags:
                         js.append(dict(base, name="%s/%s/wire-ignore" % (e.name, tagc), analysis="wire", cfg=dict(cfg, ignore=True, track_all=True)))
+                if e.name in ("fxp_lt_F_F", "fxp_ge_F_S", "fxp_mul_F_F", "fxp_truediv_F_F", "fxp_floordiv_F_i1"):
+                    # histories: the same operation after a region with a false guard was left (normally / by an exception),
+                    # and -- for in-range operands -- with error checking switched off
+                    for pre in (["false_region"], ["aborted_region"]):
+                        js.append(dict(base, name="%s/%s/value-after-%s" % (e.name, tagc, pre[0]), analysis="value",
+                                       cfg=dict(cfg, prelude=pre)))
+                        js.append(dict(base, name="%s/%s/witness-after-%s" % (e.name, tagc, pre[0]), analysis="witness",
+                                       cfg=dict(cfg, prelude=pre)))
+                    js.append(dict(base, name="%s/%s/value-ignore" % (e.name, tagc), analysis="value", cfg=dict(cfg, ignore=True),
+                                   ignore_dom_bits=cf["n"] - 3))
                 if "mul" in e.tags and e.tags & {"R=f1", "L=f1"}:
                     # product with a float constant: goes through the division gadget whose quotient is not range-checked
                     # (recorded finding) -- but the remainder must stay below 2^resolution: the finding's region says so,
